@@ -193,7 +193,7 @@ def task_default_limit(text):
     old = sys.getrecursionlimit()
     try:
         sys.setrecursionlimit(len(inspect.stack(0)) + DEFAULT_RECURSION)
-        return outcome(_W['create_ast'], text)
+        return outcome(_W['create_ast'], text, budget=12 * CALL_BUDGET_S)
     finally:
         sys.setrecursionlimit(old)
         _W['p'].parse = orig
@@ -316,6 +316,74 @@ class Gens:
                     else:
                         g_seq(pick(v, d), d)
         g_seq(pick(st.RULE_ALTS[rule], 0), 0)
+        return ' '.join(x for x in out if x)
+
+    # ---- one sentence per alternative of every grammar rule (construct coverage)
+    def _refs(self, seq):
+        for atom, _ in seq:
+            k, v = atom
+            if k == 'rule':
+                yield v
+            elif k == 'group':
+                for _, s2 in v:
+                    yield from self._refs(s2)
+
+    def cover_targets(self):
+        st = self.stub
+        parent, order = {'start': None}, ['start']
+        for r in order:
+            for k, (_, seq) in enumerate(st.RULE_ALTS[r]):
+                for q in self._refs(seq):
+                    if q not in parent:
+                        parent[q] = (r, k)
+                        order.append(q)
+        self.parent = parent
+        return [(r, k) for r in order for k in range(len(st.RULE_ALTS[r]))]
+
+    def cover(self, rule, alt, maxdepth=4):
+        """a whole script whose derivation uses alternative `alt` of `rule`"""
+        rng, st, out = self.rng, self.stub, []
+        forced = {rule: alt}
+        r = rule
+        while self.parent.get(r):
+            pr, k = self.parent[r]
+            forced.setdefault(pr, k)
+            r = pr
+        seq_cost, atom_cost = self.seq_cost, self.atom_cost
+
+        def wanted(seq):
+            return any(q in forced for q in self._refs(seq))
+
+        def pick(alts, d):
+            ok = [s for _, s in alts if seq_cost(s) + d <= maxdepth]
+            if not ok:
+                m = min(seq_cost(s) for _, s in alts)
+                ok = [s for _, s in alts if seq_cost(s) == m]
+            return rng.choice(ok)
+
+        def g_rule(v, d):
+            if v in forced:
+                g_seq(st.RULE_ALTS[v][forced.pop(v)][1], d + 1)
+            else:
+                g_seq(pick(st.RULE_ALTS[v], d + 1), d + 1)
+
+        def g_seq(seq, d):
+            for atom, suf in seq:
+                kind, v = atom
+                need = (kind == 'rule' and v in forced) or (kind == 'group' and any(wanted(s2) for _, s2 in v))
+                if suf == '' or suf in ('+', '+?'):
+                    k = 1
+                else:
+                    k = 1 if need else (rng.randrange(2) if atom_cost(atom) + d <= maxdepth else 0)
+                for _ in range(k):
+                    if kind == 'tok':
+                        out.append(self.LIT[v] if v in self.LIT else rng.choice(self.SAMPLES.get(v, ['x'])))
+                    elif kind == 'rule':
+                        g_rule(v, d)
+                    else:
+                        w = [s2 for _, s2 in v if wanted(s2)]
+                        g_seq(w[0] if w else pick(v, d), d)
+        g_rule('start', 0)
         return ' '.join(x for x in out if x)
 
     def gram(self):
@@ -561,6 +629,7 @@ def main(ck):
     except vlib.ShapeError as e:
         problems.append(('translator', 'translator:parser_state', 'source no longer has the transcribed shape: %s' % e, None))
     col_in = info['listener']['colIn'] if info else 1
+    tabw = info['tabWidth'] if info else 4
     col_fix = (info['listener']['colOut'] + info['columnOffset']) if info else 0
 
     trace('proof')
@@ -615,11 +684,11 @@ def main(ck):
     for (t, k, line, cpcol, is_ascii), (out, oc) in zip(pred_meta, pred_res or []):
         col = oc + col_fix
         raw = t.split(b'\n')[line - 1]
-        exp = raw.replace(b'\t', b' ' * 4).replace(b'\r', b'')
+        exp = raw.replace(b'\t', b' ' * tabw).replace(b'\r', b'')
         ck.count(('srcpred', t, k))
         bad = None
         if out != exp:
-            bad = 'echoed line is not the line with tabs expanded to 4 spaces and CR dropped'
+            bad = 'echoed line is not the line with tabs expanded to TAB_WIDTH=%d spaces and CR dropped' % tabw
         elif not (1 <= col <= cp_len(out) + 1):
             bad = 'reported column %d outside 1..%d (length of the echoed line + 1)' % (col, cp_len(out) + 1)
         if bad:
@@ -688,6 +757,10 @@ def main(ck):
     edge = ['', ' ', '\n', ';', 'a', 'a :=', 'a := 1', 'a := 1;', '/* c */', '// c', 'a := 1; /* c */ b := a; // d', '\ta := ;', '@', 'a := "x', "a := 'x", '/* open',
             'a := b; a := c;', 'a := 1;\r\nb := ;\r\n', '﻿a := 1;', 'a := 1;' * 300]
     items += [('edge', t) for t in edge]
+    targets = G.cover_targets()
+    for _ in range(1 if quick else 4):
+        items += [('cover', G.cover(r, k)) for r, k in targets]
+    notes['cover_targets'] = len(targets)
     while len(items) < n_txt:
         items.append(G.draw())
     for f, n in (('chain', 2000), ('paren', 2000), ('neg', 2000), ('if', 1000)):
@@ -788,7 +861,7 @@ def main(ck):
     for (f, n, t), o in zip(nest_cases, rN):
         ck.count(('nest-default', f, n))
         nest_out['%s/%d' % (f, n)] = o[0] if o[0] != 'raw' else '%s@%s' % (o[1], o[2])
-        if o[0] != 'raw':
+        if o[0] != 'raw' or o[1] == 'Timeout':
             continue
         if n <= NEST_OK:
             ck.violation('C23/py/%s/nesting<=%d-default-recursion-limit' % (o[1], NEST_OK), {'kind': 'py-nest', 'family': f, 'depth': n, 'site': o[2]},
